@@ -306,6 +306,34 @@ func ruleCDC9(w *World, r *Report) {
 		found, wit := pathQuery{fn: f, target: isReturn, avoid: isGlink}.find(entryPos(f))
 		r.Cond(!found, "CDC-9", "RewriteAOF:every-edge-re-emitted", w.Pos(f.Pos()), "the edge callback always reaches the GLINK emission", "the compaction's edge callback can return without emitting GLINK for the edge it was given (an early return on some property of the edge or of its namespace): compaction replaces the log and removes the snapshot, so every edge skipped here is lost at the next restart", w.witness(wit)...)
 	}
+	// ... and every key-value pair is carried over: the callback that collects the pairs has no way out that skips
+	// the collection (a key filter there silently deletes user keys at the next restart)
+	if ikv := w.FuncObj("pkg/core", "DB.IterateKVUnlocked"); ikv != nil {
+		rfn := w.SSAFunc(rw.Obj)
+		for _, in := range findInstrs(rfn, callsTo(ikv)) {
+			c := in.(*ssa.Call)
+			var cb *ssa.Function
+			for _, a := range c.Call.Args {
+				if mc, ok := a.(*ssa.MakeClosure); ok {
+					cb, _ = mc.Fn.(*ssa.Function)
+				}
+			}
+			if cb == nil {
+				r.Und("CDC-9", "RewriteAOF:every-kv-pair-carried-over", w.Pos(c.Pos()), "the KV iteration callback is not a function literal")
+				continue
+			}
+			isCollect := func(x ssa.Instruction) bool {
+				if ac, ok := isBuiltinCall(x, "append"); ok && ac != nil {
+					return true
+				}
+				return calleeObjOf(x) == fc && fc != nil
+			}
+			found, wit := pathQuery{fn: cb, target: isReturn, avoid: isCollect}.find(entryPos(cb))
+			r.Cond(!found && len(findInstrs(cb, isCollect)) > 0, "CDC-9", "RewriteAOF:every-kv-pair-carried-over", w.Pos(cb.Pos()), "the KV callback always collects the pair it is given", "the compaction's KV callback can return without collecting the pair it was given (a filter on the key): compaction replaces the log and retires the snapshot, so every pair skipped here is gone at the next restart", w.witness(wit)...)
+		}
+	} else {
+		r.Und("CDC-9", "anchor:DB.IterateKVUnlocked", "", "anchor lost")
+	}
 	r.Cond(names["GLINK"] && names["GUNLINK"], "CDC-9", "RewriteAOF:re-emits-edge-history", w.Pos(rw.Decl.Pos()), "compaction writes GLINK and GUNLINK (soft-deleted history)", "compaction no longer re-emits GUNLINK for soft-deleted edges: history is lost / deleted edges come back after compaction+restart")
 }
 
@@ -588,4 +616,12 @@ func ruleCDC11(w *World, r *Report) {
 		pos = w.Pos(bad.Pos())
 	}
 	r.Cond(bad == nil, "CDC-11", "Duration.MarshalJSON:whole-value", pos, "the text is produced from the whole value", "Duration.MarshalJSON writes a quotient of the duration (a rounded unit): the in-memory configuration keeps the exact value, the journaled one loses the remainder — after a restart through the log, or a compaction, a 500ms interval is 0 and a 1.5s interval 1s")
+}
+
+func calleeObjOf(in ssa.Instruction) *types.Func {
+	c, ok := in.(*ssa.Call)
+	if !ok {
+		return nil
+	}
+	return calleeObj(&c.Call)
 }
